@@ -36,7 +36,10 @@ EXTENDS Naturals, Sequences, FiniteSets, TLC, Json
 
 CONSTANTS MaxEdits,      \* length bound of the edit script
           CatchCyclic,   \* BOOLEAN, extracted from the repo: _alias_incompatibilities also catches CyclicAliasError
-          BaseFamily,    \* "all" | "small": which base packages Init chooses from
+          BaseRule,      \* "missing" | "shorter": the base-class test of _class_incompatibilities, probed by the driver:
+                         \* "missing" = some old base is no longer listed (repo fix ec3336e);
+                         \* "shorter" = the former `new.bases != old.bases and len(new) < len(old)` (regression domain)
+          BaseFamily,    \* "all" | "small" | "swap": which base packages Init chooses from
           Emit           \* BOOLEAN
 
 \* ---- the universe of definitions (ids) and their canonical paths ------------------------------------
@@ -197,7 +200,10 @@ ClassIncompat(vo, vn, ho, hn, acc) ==
   LET Bases(v, h) == IF h.id # "K" THEN <<>> ELSE (IF v.kbase THEN <<"B">> ELSE <<>>) \o (IF v.kext THEN <<"LookupError">> ELSE <<>>)
       bo == Bases(vo, ho)
       bn == Bases(vn, hn)
-      acc1 == IF bn # bo /\ Len(bn) < Len(bo) THEN Yield(acc, "CLASS_REMOVED_BASE", hn) ELSE acc
+      removed == IF BaseRule = "missing"
+                 THEN \E k \in 1..Len(bo) : \A j \in 1..Len(bn) : bn[j] # bo[k]   \* any(base not in new.bases for base in old.bases)
+                 ELSE bn # bo /\ Len(bn) < Len(bo)
+      acc1 == IF removed THEN Yield(acc, "CLASS_REMOVED_BASE", hn) ELSE acc
   IN MemberIncompat(vo, vn, ho, hn, acc1)
 \* _function_incompatibilities restricted to the one parameter the catalogue touches (`*, opt=None`):
 \* removed unless swallowed / added as required never fire for an added optional keyword-only parameter
@@ -340,14 +346,16 @@ AddReturn(d) ==                                   \* `def f(a): ...` -> `def f(a
   /\ Logged("AddReturn", d, [new EXCEPT !.ret = @ \cup {d}])
 
 \* ---- behaviours --------------------------------------------------------------------------------------
-ReexpChoices == IF BaseFamily = "small" THEN {{"K", "f", "x"}} ELSE {{}, {"K", "x"}, {"K", "f", "x"}}
-MallChoices == IF BaseFamily = "small" THEN {"part"} ELSE {"none", "full", "part", "empty"}
+ReexpChoices == IF BaseFamily = "small" THEN {{"K", "f", "x"}} ELSE IF BaseFamily = "swap" THEN {{}} ELSE {{}, {"K", "x"}, {"K", "f", "x"}}
+MallChoices == IF BaseFamily = "small" THEN {"part"} ELSE IF BaseFamily = "swap" THEN {"none"} ELSE {"none", "full", "part", "empty"}
 Init ==
   /\ mpriv \in BOOLEAN
   /\ site \in {"root", "sib"}
   /\ \E mallc \in MallChoices, reexp \in ReexpChoices, withRall \in BOOLEAN, extras \in BOOLEAN, kbase \in BOOLEAN :
         \* the three extra imports (dangling, cyclic, `import pkg.M as mal`) come together or not at all
         /\ (BaseFamily = "small" => extras /\ kbase)
+        \* "swap": the one plain package `class K(LookupError)` in pkg/mod.py, for scripts that add one base and drop another
+        /\ (BaseFamily = "swap" => ~mpriv /\ site = "root" /\ ~withRall /\ ~extras /\ ~kbase)
         /\ old = BasePackage(mallc, reexp, withRall, extras, extras, extras, kbase)
   /\ new = old /\ log = <<>>
   /\ report = Report(old, old)
@@ -373,8 +381,9 @@ LivePublic(i) == {q \in PublicPathsOf(log[i].id) : ~Hidden(i, q)}
 LiveAny(i) == {q \in AllPathsOf(log[i].id) : ~Hidden(i, q)}
 Masked(i) == LivePublic(i) = {}
 PublicEdit(i) == log[i].op \in Incompatible /\ PublicPathsOf(log[i].id) # {}
-\* known defect domain: one base dropped and another one added in the same script - the lists differ but the new
-\* one is not shorter, `len(new.bases) < len(old.bases)` is false and the removal goes unreported
+\* one base dropped and another one added in the same script: the lists differ but the new one is not shorter -
+\* the former test `len(new.bases) < len(old.bases)` missed it (fixed finding C11-base-swapped-unreported; with
+\* BaseRule = "shorter" TLC must still violate clause (ii) here, see DiffTree_defect_baseswap.cfg)
 BaseSwap(i) == log[i].op \in {"RemoveBase", "RemoveExtBase"} /\ \E j \in 1..Len(log) : log[j].op = "AddBase"
 ReportedAt(i, paths) == \E b \in report.out : b[1] = KindFor(log[i].op) /\ b[2] \in paths
 CanonPublic(d) == IF d = "mal" THEN PublicPathsOf(d) # {} ELSE CP(d) \in PublicPathsOf(d)
@@ -385,11 +394,11 @@ I_CompatSilent == (report.aborted = "no" /\ \A i \in 1..Len(log) : ~PublicEdit(i
 \*      against one of its public paths - where its canonical path is public ...
 I_ReportedAtPublicPath_Clean ==
   report.aborted = "no" => \A i \in 1..Len(log) :
-     (PublicEdit(i) /\ ~Masked(i) /\ ~BaseSwap(i) /\ CanonPublic(log[i].id)) => ReportedAt(i, LivePublic(i))
+     (PublicEdit(i) /\ ~Masked(i) /\ CanonPublic(log[i].id)) => ReportedAt(i, LivePublic(i))
 \*      ... and at least against some access path of the object (public, or below pkg.M) everywhere
 I_ReportedSomewhere ==
   report.aborted = "no" => \A i \in 1..Len(log) :
-     (PublicEdit(i) /\ ~Masked(i) /\ ~BaseSwap(i)) => ReportedAt(i, LiveAny(i))
+     (PublicEdit(i) /\ ~Masked(i)) => ReportedAt(i, LiveAny(i))
 \*      the strict clause everywhere (DiffTree_defect_path.cfg: violated by the unchanged code)
 I_ReportedAtPublicPath ==
   report.aborted = "no" => \A i \in 1..Len(log) :
